@@ -194,11 +194,18 @@ def Store.newBox (s : Store) (n : Bytes) (now : Nat) : Store :=
 
 def Store.newBoxes (s : Store) (ns : List Bytes) (now : Nat) : Store := ns.foldl (fun s n => s.newBox n now) s
 
+/-- `Roles/`: the part of the hierarchy under which SELECT and EXAMINE address role mailboxes; no personal mailbox is created
+or moved there (repair 817e6d4) -/
+def rolesPrefix : Bytes := b!"Roles/"
+/-- `isRoleMailboxPath`: the folder `Roles` itself and everything below it -/
+def underRoles (n : Bytes) : Bool := n = (b!"Roles") || hasPrefix n rolesPrefix
+
 /-- `HandleCreate` (argument as tokenised: quotes trimmed, one trailing `/` removed) -/
 def Store.create (s : Store) (arg : Bytes) (now : Nat) : Store × Res :=
   let n := trimSuffix (trimQuotes arg) slash
   if n = [] then (s, .no)
   else if toUpper n = inboxName then (s, .no)
+  else if underRoles n then (s, .no)
   else if s.has n then (s, .no)
   else ((s.newBoxes (ancestors n) now).newBox n now, .ok)
 
@@ -231,6 +238,7 @@ def Store.rename (s : Store) (oldArg newArg : Bytes) (now : Nat) : Store × Res 
   let o := trimQuotes oldArg
   let n := trimQuotes newArg
   if o = [] ∨ n = [] then (s, .bad)
+  else if underRoles (trimSuffix n slash) then (s, .no)
   else if toUpper n = inboxName then (s, .no)
   else if toUpper o = inboxName then
     -- INBOX: a new mailbox takes over the links and continues INBOX's UID sequence; INBOX stays, empty
